@@ -107,6 +107,14 @@ class NullEvent:
         return self._real.wait(timeout)
 
 
+class BadCtorErr(Exception):
+    """an exception class that cannot be built from one message argument (like
+    botocore's ClientError): cancel(msg, exc_type=BadCtorErr) raises TypeError"""
+
+    def __init__(self, a, b):
+        super().__init__(a, b)
+
+
 class Reg:
     """one registration of a callback / cleanup"""
     __slots__ = ('kind', 'id', 'index', 'runs')
@@ -144,8 +152,20 @@ class Impl:
             real_locks = True
             saved = _futures.threading
             _futures.threading = sched_ns
+            # reads of the state are scheduling points too (the interpreter can switch threads
+            # between two attribute reads): `status` is read through a yielding property
+            base_status = TransferCoordinator.__dict__.get('status')
+            if isinstance(base_status, property) and getattr(sched_ns, 'sched', None) is not None:
+                sched_ = sched_ns.sched
+
+                def _yielding_status(self_):
+                    sched_.yield_point('status-read')
+                    return base_status.fget(self_)
+                cls_ = type('TransferCoordinator', (TransferCoordinator,), {'status': property(_yielding_status)})
+            else:
+                cls_ = TransferCoordinator
             try:
-                self.c = TransferCoordinator()
+                self.c = cls_()
             finally:
                 _futures.threading = saved
         else:
@@ -266,6 +286,14 @@ class Impl:
                 if c.exception is not e or c.status != 'failed':
                     self.viol.append(('user-set-exception', 'future.set_exception on a done future did not store the exception / set failed'))
             return 'unit'
+        if p[0] == 'cancel' and p[1] == 'x':
+            # a cancel whose exception cannot be constructed: cancel() raises TypeError and must
+            # leave the transfer as it was; the model runs the read-only op 'status' in its place
+            try:
+                c.cancel(msg_of(int(p[2], 16)), BadCtorErr)      # on a done transfer nothing is constructed
+            except TypeError:
+                pass
+            return self.do_call('status', top)
         if p[0] == 'cancel':
             k, m = p[1], int(p[2], 16)
             if k == 'c' and m == 0:
@@ -441,6 +469,11 @@ class Impl:
         return out, obs
 
 
+def model_tok(tok):
+    """The model's op for an implementation op (only 'cancel:x:m' differs: see do_call)."""
+    return 'status' if tok.startswith('cancel:x:') else tok
+
+
 def run_impl(env, ops, real_locks=False):
     """-> (observation line, violations, executed op tokens)"""
     im = Impl(env, real_locks)
@@ -536,7 +569,7 @@ ENV_CORE = 'cb1=sx:o:2,cancel:c:0,result'
 ENV_PLAIN = ''
 ENV_SCRIPTS = 'cb1=sx:o:2,done cb2=cancel:c:0,result,status cl1=cancel:c:0,done'
 
-RANDOM_OPS = ALPHABET + ['sr:8', 'se:f:2:1', 'se:c:1:0', 'ccs:c:0', 'ccs:f:1', 'cancel:o:2', 'ph1', 'ph2', 'ph3',
+RANDOM_OPS = ALPHABET + ['cancel:x:1', 'cancel:x:1', 'sr:8', 'se:f:2:1', 'se:c:1:0', 'ccs:c:0', 'ccs:f:1', 'cancel:o:2', 'ph1', 'ph2', 'ph3',
                          'adc:3', 'afc:2', 'afc:3', 'exc', 'done', 'status', 'result', 'sx:c:1', 'sx:o:1',
                          'ann', 'ann', 'q', 'r']
 RANDOM_CALLS = ['done', 'status', 'result', 'sx:o:1', 'sx:o:2', 'sx:f:1', 'cancel:c:0', 'cancel:c:0', 'cancel:f:2']
@@ -636,6 +669,7 @@ class SchedNamespace:
 
     def __init__(self, shim, sched):
         self._shim = shim
+        self.sched = sched
         self.Lock = lambda: YLock(shim.Lock(), sched)
 
     def __getattr__(self, name):
@@ -877,6 +911,11 @@ CONC_SETUPS = [
     ('cb1=sx:o:2,done', ['adc:1', 'q', 'r'], [['sr:7', 'ann'], ['cancel:c:0'], ['se:o:1:0']]),
     (ENV_PLAIN, ['q', 'r', 'sr:7'], [['sx:o:2'], ['se:o:1:0'], ['q']]),
     (ENV_PLAIN, ['q'], [['r', 'sr:7'], ['cancel:c:0'], ['se:o:1:1']]),
+    # readers racing the legitimate replacers on a FINISHED transfer: done() must stay True
+    (ENV_PLAIN, ['q', 'r', 'sr:7', 'ann'], [['done'], ['sx:o:2']]),
+    (ENV_PLAIN, ['q', 'r', 'sr:7', 'ann'], [['done', 'done'], ['sx:o:2'], ['status']]),
+    (ENV_PLAIN, ['q', 'r', 'se:o:1:0', 'ann'], [['done'], ['sr:7']]),
+    (ENV_PLAIN, ['q', 'r', 'se:o:1:0', 'ann'], [['done', 'status'], ['se:o:2:1']]),
 ]
 
 CONC_OPS = ['sr:7', 'se:o:1:0', 'se:o:2:0', 'se:o:1:1', 'cancel:c:0', 'cancel:f:3', 'q', 'r', 'ann',
@@ -1218,7 +1257,7 @@ def differential_stream(ctx, rep, name, cases, mism_out, keep_every=0, chunk=400
             obs, viol, done_ops = r
             if viol:
                 rep.oracle(env, ops, viol)
-            lines.append(f'R | {env} | {" ".join(ops)}')
+            lines.append(f'R | {env} | {" ".join(model_tok(t) for t in ops)}')
             impl_obs.append(obs)
             kept.append(case)
         model = common.run_model('coord', lines) if lines else []
@@ -1265,7 +1304,7 @@ def thread_stream(ctx, rep, mism_out, thorough):
         obs, viol, done_ops = r
         if viol:
             rep.oracle(case[0], done_ops, viol)
-        lines.append(f'R | {case[0]} | {" ".join(done_ops)}')
+        lines.append(f'R | {case[0]} | {" ".join(model_tok(t) for t in done_ops)}')
         impl_obs.append(obs)
         kept.append((case[0], done_ops))
     model = common.run_model('coord', lines) if lines else []
@@ -1388,6 +1427,14 @@ def run(ctx):
     real_lock_confirmation(ctx, rep, pairs)
     # (f) real threads under the cooperative scheduler: oracle at every scheduling point + linearizability
     concurrent_stream(ctx, rep, thorough)
+    # (g) system level: who may replace a recorded failure.  Real TransferManager runs in which a
+    # request fails and a later request of the same transfer is interrupted (Ctrl-C), and runs with
+    # faults / cancels under the scheduler: the first recorded failure stays the outcome.
+    from harness.props import sysrun
+    from harness.sched import monitors as M
+    sys_specs = sysrun.specs_failure_then_interrupt(ctx, sysrun.KINDS[:: (1 if thorough else 2)])
+    sys_specs += sysrun.specs_cancel(ctx, sysrun.KINDS[::4], ['future'], [4, 17, 33])
+    sysrun.sub_runs(ctx, sys_specs, sys_mons())
 
     # mismatches: property violation on the implementation, or a broken correspondence
     for (case, i, m) in mism[:40]:
@@ -1434,8 +1481,16 @@ def search_after_break(ctx, rep):
                    no_input=True)
 
 
+def sys_mons():
+    from harness.sched import monitors as M
+    return [M.m_terminates, M.m_first_failure_kept]
+
+
 def replay(ctx, data):
     case = data.get('case') or {}
+    if isinstance(case, dict) and 'transfers' in case:
+        from harness.props import sysrun
+        return sysrun.replay_spec(ctx, data, sys_mons())
     if isinstance(case, dict) and 'ops' in case:
         env, ops = case.get('env', ''), case['ops']
         clause = data.get('clause')
